@@ -9,6 +9,8 @@ mod coverage;
 mod front;
 mod graph;
 mod lexer;
+mod numeric;
+mod roles;
 mod session;
 mod sources;
 
@@ -59,6 +61,8 @@ fn main() {
         | "replay-session" => session::replay_session(&args[2], &args[3]),
         | "stress-snapshots" => conc::stress_snapshots(&args[2], args[3].parse().unwrap(), args[4].parse().unwrap()),
         | "pending-slot" => conc::pending_slot(&args[2]),
+        | "replay-numeric" => numeric::replay_numeric(&args[2], &args[3]),
+        | "literal-discipline" => numeric::literal_discipline(&args[2]),
         | "corpus-run" => {
             // zyconf corpus-run OUT MUTANTS_PER_FILE MAX_STEPS
             corpus::corpus_run(&args[2], args[3].parse().unwrap(), args[4].parse().unwrap());
